@@ -218,7 +218,10 @@ CHECKS['C11'] = dict(
           "Conformance: real ITML / ITML_Supervised fits over priors x gamma x bounds x budgets; duals and slack bounds "
           "are read from the solver frame at return (no source change); TLC (TR_ITML) verifies the inverse / Cholesky "
           "witnesses and evaluates SPD, dual feasibility, (K2), the slack relation, complementary slackness for converged "
-          "runs, and 'prior returned when it satisfies all bounds'."),
+          "runs, and 'prior returned when it satisfies all bounds'. Beyond the property (clauses G11, reported in the "
+          "evidence, never a violation): small real fits (d <= 3, <= 14 projections) are replayed EXACTLY against the "
+          "d-dimensional projection machine of ITML.tla in rational arithmetic - matrix after n_iter_ + 1 sweeps, the "
+          "documented stopping rule, duals >= 0 - with the unlogged duals and slack bounds carried by the machine."),
     note=("Instances outside the precision of a floating-point certificate are counted, not judged (clause prefix X11): "
           "a bound <= 2^-30 of a constraint vector's squared length (the documented 1e-9 replacement of a zero bound) or "
           "max|M| max|M^-1| > 2^27. (K2) tolerance 2^-15 of the scale below 200 sweeps, 2^-7 beyond (drift of the "
@@ -248,7 +251,10 @@ CHECKS['C12'] = dict(
           "d_cd), quotients, normalised weights; logs tabulated) and evaluates the documented objective and its analytic, "
           "WEIGHTED gradient exactly: SPD, f(M) <= f(prior), prior returned when no constraint is violated under it, "
           "||grad f(M)||_F <= tol whenever the solver stopped before max_iter, and equality of the metrics learned with "
-          "weights w and c w."),
+          "weights w and c w. Beyond the property (clauses G12): the complete call history of real fits (every "
+          "_total_loss / _gradient call, observed by wrapping) is followed by the line-search machine of LSML.tla: start at "
+          "the documented prior, stop when the gradient norm < tol, ten trials on the documented step grid, strictly best "
+          "trial accepted, stop when none improves, n_iter_, result = last accepted point."),
     note=("libm log is trusted (logdet through the Cholesky diagonal). 'Stopped before max_iter' is n_iter_ < max_iter."),
     technique="TLA+ line-search machine model-checked + objective/gradient certificate evaluated by TLC on recorded fits",
     ref="DESIGN.md section 5 C12")
@@ -275,7 +281,10 @@ CHECKS['C10'] = dict(
           "recomputed exactly, exp tabulated, normalisation checked), LMNN exactly with the target sets verified as k "
           "nearest same-class points - and decides on its own numbers: result not worse than the initialisation, first "
           "evaluation at the documented initialisation, zero optimiser iterations return it bit for bit, LMNN returns "
-          "its last accepted iterate and accepted objectives are non-increasing."),
+          "its last accepted iterate and accepted objectives are non-increasing. LMNN is also fitted on two overlapping "
+          "classes of 140-330 samples each (39k-218k active hinge terms; objective value of the first evaluated points). "
+          "Beyond the property (clause G10): LMNN's backtracking machine is followed on the logged numbers - every trial "
+          "point is accepted point - rate x gradient, the rate halved on a reject and multiplied by 1.01 on an accept."),
     note=("libm exp trusted (range / monotonicity / e(0)=1 checked). 'Zero iterations' is keyed on the optimiser's own "
           "iteration count (L-BFGS-B with maxiter=0 still iterates once). At most 5 (NCA/MLKR) / 10 (LMNN) evaluations "
           "per fit are recomputed; a rejected witness makes the evaluation inconclusive (X10)."),
